@@ -8,6 +8,7 @@ Decided:
   E1  purity: the function and its callees read no static/global state other than the runtime debug level, and call
       only pure library functions — together with B1 the result depends on the arguments alone
   X1  numeric components are not ordered through a wrapping difference or a narrowed conversion of the digit runs
+  B2  CAP over the libast output primitives it calls (libast_dprintf): their buffer accesses are bounded
 Not decided: antisymmetry and the ordering of well-formed versions (values)."""
 import re
 
@@ -36,7 +37,8 @@ def run(tier="quick"):
     chk.rule("P1", "every loop makes progress")
     chk.rule("X1", "numeric components are not ordered through a wrapping difference / narrowed conversion")
     chk.rule("E1", "no global state, only pure callees")
-    prog = facts.extract(only=["strings.c"])
+    chk.rule("B2", "the trace-output primitives called on its behalf keep every access inside their own buffers")
+    prog = facts.extract(only=["strings.c", "msgs.c"])
     f = prog.need("spiftool_version_compare")
     holder = []
 
@@ -102,7 +104,8 @@ def run(tier="quick"):
         chk.ob("X1", f.name, "numeric-order-by-difference", True, loc=f.loc(f.body),
                proof="no sign test of a difference of converted digit runs")
     # purity
-    fns = [f] + [prog.fn(X.callee_name(c)) for c in X.calls_in(f.body) if prog.fn(X.callee_name(c) or "") is not None]
+    fns = [f] + [prog.fn(X.callee_name(c)) for c in X.calls_in(f.body)
+                 if prog.fn(X.callee_name(c) or "") is not None and prog.fn(X.callee_name(c)).unit is f.unit]
     bad_g, bad_c = [], []
     for g in fns:
         for x in walk(g.body):
@@ -123,8 +126,20 @@ def run(tier="quick"):
     chk.ob("E1", f.name, "pure-callees", not bad_c, loc=bad_c[0][0].loc(bad_c[0][1]) if bad_c else f.loc(f.body),
            detail="%s calls %s, which is not a known pure function" % (f.name, X.callee_name(bad_c[0][1]) if bad_c else ""),
            proof="callees are pure libc functions, the case helpers and debug output")
+    # B2 the libast output primitives the comparison calls (its trace output) stay inside their own buffers as well: "without
+    # touching memory outside its arguments and locals" covers what runs on its behalf
+    outs, seen_o = [], set()
+    for c in X.calls_in(f.body):
+        g = prog.fn(X.callee_name(c) or "")
+        if g is not None and g.unit is not f.unit and g.name not in seen_o and g.name not in NORETURN:
+            seen_o.add(g.name)
+            outs.append(g)
+    if outs:
+        n2, nund2, _s2 = run_cap(chk, prog, outs, rule="B2", noreturn=NORETURN, kinds={"lower", "upper", "null", "count", "freed"})
+        nund += nund2
+    chk.count("output_primitives_analysed", len(outs), floor=1)
     chk.count("loops_with_progress_obligation", nloops, floor=5)
     chk.count("undecided_obligations", nund)
-    chk.analysed = {"units": ["strings.c"], "functions": [g.name for g in fns]}
+    chk.analysed = {"units": ["strings.c", "msgs.c"], "functions": [g.name for g in fns] + [g.name for g in outs]}
     chk.assume("both arguments are NUL-terminated strings; libc ctype and strcmp/strtol are pure")
     return chk.finish()
